@@ -273,8 +273,17 @@ def run_history(ctx, seed_case):
             name = rng.choice(list(CMP))
             ctx.count("comparisons")
             nontrivial |= changed_display
-            got, want = CMP[name](q, q2), CMP[name](sh.raw, s2.raw)
-            if bool(got) != want:
+            want = CMP[name](sh.raw, s2.raw)
+            try:
+                got = CMP[name](q, q2)
+            except Exception as exc:  # pylint: disable=broad-except
+                got = None
+                if sh.display not in own or s2.display not in own:
+                    ctx.count("comparisons_raised_under_foreign_label")     # an operand carries a label of another dimension: not judged
+                else:
+                    ctx.violation("compare.raised", f"({sh.x!r} {sh.unit0}, displayed in {sh.display}) {name} ({s2.x!r} {s2.unit0}, displayed in "
+                                                    f"{s2.display}) raised {type(exc).__name__}: {str(exc)[:80]}", case)
+            if got is not None and bool(got) != want:
                 ctx.violation("compare.quantity", f"({sh.x!r} {sh.unit0}) {name} ({s2.x!r} {s2.unit0}) gave {got}, "
                                                   f"raw magnitudes say {want}", case)
         elif op == "cmp_num":
